@@ -14,6 +14,12 @@ theorem mem_ppioS (net : Net) (i : Nat) : i ∈ ppioS net ↔ net.io.length ≤ 
   have := io_le_sNodes net
   simp only [ppioS, List.mem_range'_1]; omega
 
+theorem mem_ppiUsedS (net : Net) (i : Nat) :
+    i ∈ ppiUsedS net ↔ (net.io.length ≤ i ∧ i < net.sNodes.length) ∧ 0 < (sNodeAt net i).outs.length := by
+  unfold ppiUsedS
+  rw [List.mem_filter, mem_ppioS]
+  simp
+
 theorem mem_poS (net : Net) (i : Nat) : i ∈ poS net ↔ i < net.io.length ∧ ((sNodeAt net i).inPin 0).isSome = true := by
   simp [poS]
 
